@@ -133,7 +133,8 @@ func maskText(m Val) Val {
 
 // CanonOp canonicalises the observations of one op.  left = sessions that
 // ended during the op.  Returns per receiver the sorted canonical strings.
-func CanonOp(obs []Obs, left []int, env *canonEnv, namer *PubNamer) map[int][]string {
+func CanonOp(obs []Obs, left []int, env *canonEnv, namer *PubNamer, realmOf func(recv int) int) map[int][]string {
+	key := func(recv int, id string) string { return fmt.Sprintf("%d:%s", realmOf(recv), id) }
 	gone := map[int]bool{}
 	for _, s := range left {
 		gone[s] = true
@@ -164,7 +165,7 @@ func CanonOp(obs []Obs, left []int, env *canonEnv, namer *PubNamer) map[int][]st
 		}
 		masked := cloneVal(it.msg)
 		pubPositions(masked, func(id *Val) {
-			if n, ok := namer.toName[id.I]; ok {
+			if n, ok := namer.toName[key(it.recv, id.I)]; ok {
 				*id = Str(n)
 			} else {
 				*id = Str("P?")
@@ -172,8 +173,8 @@ func CanonOp(obs []Obs, left []int, env *canonEnv, namer *PubNamer) map[int][]st
 		})
 		s := fmt.Sprintf("%d|%s", it.recv, masked.CanonString())
 		for _, id := range ids {
-			if _, known := namer.toName[id]; !known {
-				sig[id] = append(sig[id], s)
+			if _, known := namer.toName[key(it.recv, id)]; !known {
+				sig[key(it.recv, id)] = append(sig[key(it.recv, id)], s)
 			}
 		}
 	}
@@ -193,21 +194,55 @@ func CanonOp(obs []Obs, left []int, env *canonEnv, namer *PubNamer) map[int][]st
 		namer.n++
 		name := fmt.Sprintf("P%d", namer.n)
 		namer.toName[id] = name
-		namer.toID[name] = id
+		namer.toID[name] = id[strings.IndexByte(id, ':')+1:]
 	}
 	out := map[int][]string{}
 	for _, it := range items {
 		pubPositions(it.msg, func(id *Val) {
-			if n, ok := namer.toName[id.I]; ok {
+			if n, ok := namer.toName[key(it.recv, id.I)]; ok {
 				*id = Str(n)
 			}
 		})
+		if msgCode(it.msg) == 50 {
+			it.msg = sortIntLists(it.msg)
+		}
 		out[it.recv] = append(out[it.recv], it.msg.CanonString())
 	}
 	for k := range out {
 		sort.Strings(out[k])
 	}
 	return out
+}
+
+// sortIntLists orders every list that consists of integers only: the id
+// lists of the meta API come out in Go map iteration order.
+func sortIntLists(v Val) Val {
+	switch v.T {
+	case 'l':
+		out := Val{T: 'l'}
+		allInt := len(v.L) > 1
+		for _, e := range v.L {
+			x := sortIntLists(e)
+			if x.T != 'i' {
+				allInt = false
+			}
+			out.L = append(out.L, x)
+		}
+		if allInt {
+			sort.SliceStable(out.L, func(i, j int) bool {
+				a, b := out.L[i].I, out.L[j].I
+				return len(a) < len(b) || (len(a) == len(b) && a < b)
+			})
+		}
+		return out
+	case 'd':
+		out := Val{T: 'd'}
+		for _, e := range v.D {
+			out.D = append(out.D, KV{e.K, sortIntLists(e.V)})
+		}
+		return out
+	}
+	return v
 }
 
 func cloneVal(v Val) Val {
